@@ -346,6 +346,16 @@ func checkC12R(r *rt.Run) *rViolation {
 	}
 	sawRaw := false
 	for _, rec := range r.Records {
+		// a burst of well-formed messages is input too: afterwards the node must still take messages, elections and UpdateState
+		if rec.Op.K == "flood" && !rec.Returned {
+			return &rViolation{"node-stops-taking-messages", fmt.Sprintf("HandleConsensusMessage stopped being accepted during a burst of %d well-formed messages (blocked gates: %v)", rec.Op.N, rec.BlockedAtStart)}
+		}
+		if (rec.Op.K == "sync" || rec.Op.K == "burst") && !rec.Returned {
+			return &rViolation{"updatestate-blocked-after-input", fmt.Sprintf("UpdateState(h=%d) did not return after earlier input", rec.AbsH)}
+		}
+		if rec.Op.K == "sync" && rec.Err == "" && rec.AbsH >= rec.H0 && r.FinalSettled && r.FinalH <= rec.AbsH {
+			return &rViolation{"node-ignores-updatestate-after-input", fmt.Sprintf("after earlier input UpdateState(block %d) had no effect: node at height %d at quiescence", rec.AbsH, r.FinalH)}
+		}
 		if rec.Op.K == "raw" {
 			sawRaw = true
 			if !rec.Returned {
@@ -470,7 +480,7 @@ func gateWasClosedAtCancel(r *rt.Run) bool {
 
 // hostile inputs for the runtime layer of C12: raw bytes derived from valid serialised messages
 func TestC12R(t *testing.T) {
-	o := rOpts{Focus: "C12", MaxOps: 8, Kinds: []string{"round", "round", "raw", "raw", "raw", "settle", "trigger"}}
+	o := rOpts{Focus: "C12", MaxOps: 9, Kinds: []string{"round", "round", "raw", "raw", "raw", "settle", "trigger", "plan", "flood", "flood", "sync"}}
 	rProperty(t, o, checkC12R, func(r *rt.Run) bool {
 		for _, rec := range r.Records {
 			if rec.Op.K == "raw" {
